@@ -328,6 +328,13 @@ theorem instr_static (ctx : Ctx) : ∀ (i : EInstr) (s s' : St) (out : List MStm
   | .memoryFill, s, s', out, dead, hc, hw => by static_simple
   | .memoryInit seg, s, s', out, dead, hc, hw => by static_simple
   | .dataDrop seg, s, s', out, dead, hc, hw => by static_simple
+  | .atomicLoad o off, s, s', out, dead, hc, hw => by static_simple
+  | .atomicStore o off, s, s', out, dead, hc, hw => by static_simple
+  | .atomicRmw o off, s, s', out, dead, hc, hw => by static_simple
+  | .atomicCmpxchg o off, s, s', out, dead, hc, hw => by static_simple
+  | .atomicFence, s, s', out, dead, hc, hw => by static_simple
+  | .atomicNotify off, s, s', out, dead, hc, hw => by static_simple
+  | .atomicWait b off, s, s', out, dead, hc, hw => by static_simple
   | .numeric o, s, s', out, dead, hc, hw => by static_simple
   | .call f, s, s', out, dead, hc, hw => by static_simple
   | .callIndirect ty tbl, s, s', out, dead, hc, hw => by static_simple
